@@ -1,8 +1,7 @@
 (* C01 - encoding a seed and decoding the phrase gives back the same seed. *)
 From PS Require Import Base PackDefs ApiDefs SpecDefs SpecApi PackProofs PackTheorems ApiLemmas RefineProofs
   ApiTheorems RoundTrip.
-From PS Require Import GFProofs CTiePack.
-From PS.Gen Require CFuns.
+From PS Require Import GFProofs.
 From PS.Gen Require Import Consts Langs.
 Local Open Scope N_scope.
 
